@@ -19,6 +19,7 @@ func init() {
 			`R13.3 codec pairing: the algorithms with a registered compressor are exactly those with a registered decompressor, each Apply builds its stream with a constructor from a package named after the algorithm, and NONE is a pass-through on both sides; ` +
 			`R13.4 every magic constant written has a reader expecting the same constant; R13.5 in package wire the byte count returned by a Read call is never discarded (a source may return 0, nil at a save point); R13.6 every success return of ReadMessage has passed msg.Reset() and the unmarshalling of the bytes just read (decoding merges, so without the reset an all-default message reads back as its predecessor). ` +
 			`R13.7 WriteMessage writes the varint length and then the marshalled bytes on every success path, empty payloads included; R13.8 every success return of WriteContext.Close has tested the writer against an interface with a Close method and, on the branch where the test held, invoked it (CompressWire hands the compressor to a WriteContext: its Close writes the final block and trailer that make the stream end). ` +
+			`R13.9 every success path of Resume stores a save state other than 'has a source checkpoint', or reaches the return through a test that shows the state is another one. ` +
 			`NOT decided: the round trip itself, buffer regrowth, decompressor checkpoints lagging the message offset (savior's code).`,
 		Assumptions: []string{"the underlying source is the field source of wire.ReadContext"},
 		Run:         runC13,
@@ -263,6 +264,7 @@ func runC13(c *core.Ctx) {
 	}
 
 	ruleWriterCloseFinishesStream(c)
+	ruleResumeLeavesNothingPending(c)
 
 	// ---- R13.4 magic pairing
 	written, expected := map[int64][]string{}, map[int64][]string{}
@@ -807,4 +809,79 @@ func ruleWriterCloseFinishesStream(c *core.Ctx) {
 			o.Detail += " (return at " + c.P.Pos(bad.Pos()) + ")"
 		}
 	}
+}
+
+// ruleResumeLeavesNothingPending is R13.9: a source checkpoint that was delivered but not popped belongs to
+// the position the reader had when it was delivered. Resume moves the reader; if the "has a source
+// checkpoint" state survives it, the next PopCheckpoint pairs the resumed offset with a source checkpoint
+// from further along, and that checkpoint cannot be resumed from. Every success path of Resume therefore
+// stores another state - unless it got there through a test that already shows the state is another one.
+func ruleResumeLeavesNothingPending(c *core.Ctx) {
+	c.Rule("R13.9", "Resume leaves no source checkpoint pending")
+	resume := c.P.Fn("wire", "ReadContext.Resume")
+	if resume == nil {
+		c.Missing("R13.9", "wire.(*ReadContext).Resume", "not found")
+		return
+	}
+	has, ok := int64(0), false
+	if k, isK := c.P.LookupObj("wire", "saveStateHasSourceCheckpoint").(*types.Const); isK {
+		has, ok = constInt64(k)
+	}
+	if !ok {
+		c.Missing("R13.9", "wire.saveStateHasSourceCheckpoint", "not found")
+		return
+	}
+	isState := func(v ssa.Value) bool {
+		for _, o := range core.Origins(v) {
+			if _, n, ok := core.FieldOf(o); ok && n == "saveState" {
+				return true
+			}
+		}
+		return false
+	}
+	clears := func(in ssa.Instruction) bool {
+		st, ok := in.(*ssa.Store)
+		if !ok {
+			return false
+		}
+		if _, n, ok := core.FieldOf(st.Addr); !ok || n != "saveState" {
+			return false
+		}
+		k, isC := core.ConstInt(st.Val)
+		return isC && k != has
+	}
+	// edges that already say "the state is not 'has a checkpoint'"
+	other := func(b, s *ssa.BasicBlock) bool {
+		if len(b.Instrs) == 0 || len(b.Succs) != 2 {
+			return false
+		}
+		iff, ok := b.Instrs[len(b.Instrs)-1].(*ssa.If)
+		if !ok {
+			return false
+		}
+		val := s == b.Succs[0]
+		if condHolds(iff.Cond, val, token.NEQ, isState, isConstInt(has)) {
+			return true
+		}
+		// equal to some other constant
+		bo, ok := iff.Cond.(*ssa.BinOp)
+		if !ok {
+			return false
+		}
+		for _, side := range []ssa.Value{bo.X, bo.Y} {
+			if k, isC := core.ConstInt(side); isC && k != has && condHolds(iff.Cond, val, token.EQL, isState, isConstInt(k)) {
+				return true
+			}
+		}
+		return false
+	}
+	n := 0
+	for _, rs := range successReturns(resume) {
+		n++
+		p := core.FindPathSkipping(resume, nil, isInstr(rs.Ret), clears, other)
+		c.Check(p == nil, "R13.9", core.FnName(resume), "success only with the save state moved off 'has a source checkpoint'", core.InstrPos(rs.Ret),
+			"every path to this return stores another save state, or passes a test that shows the state is another one",
+			"Resume can succeed with a delivered-but-unpopped source checkpoint still pending: the next PopCheckpoint pairs the resumed offset with a source checkpoint from further along the stream, and resuming from that fails ('source resumed after our offset')").Path = c.P.PathStrings(p)
+	}
+	c.Floor("R13.9", "success returns of Resume", n, 1)
 }
